@@ -353,7 +353,7 @@ impl Ctx {
                     desc: Mutex::new(String::new()),
                 })
                 .collect(),
-            case_timeout_s: AtomicU64::new(30),
+            case_timeout_s: AtomicU64::new(120),
             states: AtomicU64::new(0),
             transitions: AtomicU64::new(0),
             traces_validated: AtomicU64::new(0),
